@@ -7,6 +7,7 @@ package main
 
 import (
 	"fmt"
+	"strings"
 	"sync"
 	"time"
 
@@ -32,10 +33,23 @@ type c14Clique struct {
 	cur     [][]byte
 	hist    [][][]byte // messages of every completed round
 	mut     func(round, to, from int, msg []byte) []byte
+
+	// ground-truth ledger of the aborted-run scenarios (all under mu)
+	fault    *c14Fault
+	calls    []int        // number of Step calls made by each participant
+	dead     []bool       // Step fails for good
+	okRound  [][]int      // okRound[i][call] = round the call took part in and returned from, -1 if it failed
+	badSlot  [][][]bool   // badSlot[i][call][j]: slot j handed to i by that call was not what j sent
+	deliv    [][][][]byte // deliv[i][call]: the slot vector handed to i by that call (nil if it failed)
+	finished []bool
+	progress int // bumped by every Step call and every return of a participant
+	goid     []int
+	rnd      []byte
 }
 
 func c14NewClique(k int) *c14Clique {
-	c := &c14Clique{k: k, active: make([]bool, k), arrived: make([]bool, k), cur: make([][]byte, k)}
+	c := &c14Clique{k: k, active: make([]bool, k), arrived: make([]bool, k), cur: make([][]byte, k),
+		calls: make([]int, k), dead: make([]bool, k), okRound: make([][]int, k), badSlot: make([][][]bool, k), deliv: make([][][][]byte, k), finished: make([]bool, k), goid: make([]int, k)}
 	c.cond = sync.NewCond(&c.mu)
 	for i := range c.active {
 		c.active[i] = true
@@ -69,9 +83,32 @@ func (c *c14Clique) complete() {
 	c.cond.Broadcast()
 }
 
-func (c *c14Clique) step(i int, msg []byte) [][]byte {
+// step is the Context.Step of participant i, with the scenario's fault applied.
+func (c *c14Clique) step(i int, msg []byte) ([][]byte, error) {
 	c.mu.Lock()
 	defer c.mu.Unlock()
+	call := c.calls[i]
+	c.calls[i]++
+	c.progress++
+	for c.arrived[i] { // a skipped contribution of this participant still belongs to an open round
+		c.cond.Wait()
+	}
+	f := c.fault
+	if c.dead[i] || (f.hits(i) && (f.kind == "step-error" || f.kind == "step-error-transient") && f.step == call) {
+		c.okRound[i] = append(c.okRound[i], -1)
+		c.badSlot[i] = append(c.badSlot[i], nil)
+		c.deliv[i] = append(c.deliv[i], nil)
+		if c.dead[i] || f.kind == "step-error" {
+			c.dead[i] = true
+			c.active[i] = false
+			c.cur[i] = nil
+		} else {
+			c.cur[i] = nil // contributes nothing to this round
+			c.arrived[i] = true
+		}
+		c.complete()
+		return nil, errC14Injected
+	}
 	round := len(c.hist)
 	c.cur[i] = append([]byte(nil), msg...)
 	c.arrived[i] = true
@@ -95,11 +132,24 @@ func (c *c14Clique) step(i int, msg []byte) [][]byte {
 		}
 		res[j] = m
 	}
-	return res
+	bad := make([]bool, c.k)
+	if f.hits(i) && f.kind == "garbled" && f.step == call {
+		res, bad = c14Garble(f.variant, i, res, c.rnd)
+	}
+	c.okRound[i] = append(c.okRound[i], round)
+	c.badSlot[i] = append(c.badSlot[i], bad)
+	cp := make([][]byte, len(res))
+	for j := range res {
+		cp[j] = append([]byte(nil), res[j]...)
+	}
+	c.deliv[i] = append(c.deliv[i], cp)
+	return res, nil
 }
 
 func (c *c14Clique) leave(i int) {
 	c.mu.Lock()
+	c.finished[i] = true
+	c.progress++
 	c.active[i] = false
 	c.arrived[i] = false
 	c.cur[i] = nil
@@ -114,8 +164,14 @@ type c14Member struct {
 	suite proof.Suite
 }
 
-func (m *c14Member) Step(msg []byte) ([][]byte, error) { return m.c.step(m.i, msg), nil }
-func (m *c14Member) Random() kyber.XOF                 { return m.suite.XOF(m.seed) }
+func (m *c14Member) Step(msg []byte) ([][]byte, error) { return m.c.step(m.i, msg) }
+func (m *c14Member) Random() kyber.XOF {
+	x := m.suite.XOF(m.seed)
+	if f := m.c.fault; f.hits(m.i) && f.kind == "random-error" {
+		return &c14FailXOF{XOF: x, n: f.step}
+	}
+	return x
+}
 
 // ---------------------------------------------------------------- scenarios
 
@@ -145,23 +201,81 @@ func c14Deniable(r *mon.R) {
 	envs := c14SelectEnvs(*flagGroups)
 	var jobs []c14Job
 	for _, e := range envs {
-		n := r.N(200, 4000)
+		n := r.N(300, 6000)
 		if e.name != "ed25519" {
-			n = r.N(100, 2000)
+			n = r.N(150, 3000)
 		}
 		for i := 0; i < n; i++ {
 			jobs = append(jobs, c14Job{e, i})
 		}
 	}
 	r.Op("proof.DeniableProver", "proof.Context.Step", "proof.Context.Random", "Predicate.Prover", "Predicate.Verifier")
-	mon.Parallel(len(jobs), func(w, i int) {
-		j := jobs[i]
-		r.Journal(w, "C14 deniable %s scenario %d seed %d", j.env.name, j.idx, r.Seed)
-		r.Guard("C14/"+j.env.name+"/deniable/job", map[string]any{"group": j.env.name, "scenario": j.idx}, func() { c14DenRun(r, j.env, j.idx) })
-	})
+	// Phase A: everything except the aborted-run scenarios beyond the first three of each fault class.
+	// Phase B: the remaining aborted-run scenarios, except fault classes under which phase A proved a deadlock
+	// (every further scenario of such a class would only leak blocked goroutines; the case list stays a
+	// function of (seed, tier) and of the behaviour of the code under test).
+	var jobsA, jobsB []c14Job
+	seen := map[string]int{}
+	fcOf := func(j c14Job) string {
+		f, ok := c14AbortFaultFor(j.env, j.idx)
+		if !ok {
+			return ""
+		}
+		return j.env.name + "/" + f.kind + "/" + c14FaultClass(&f)
+	}
+	for _, j := range jobs {
+		fc := fcOf(j)
+		if fc == "" || seen[fc] < 3 {
+			jobsA = append(jobsA, j)
+			seen[fc]++
+		} else {
+			jobsB = append(jobsB, j)
+		}
+	}
+	run := func(js []c14Job) {
+		mon.Parallel(len(js), func(w, i int) {
+			j := js[i]
+			r.Journal(w, "C14 deniable %s scenario %d seed %d", j.env.name, j.idx, r.Seed)
+			r.Guard("C14/"+j.env.name+"/deniable/job", map[string]any{"group": j.env.name, "scenario": j.idx}, func() { c14DenRun(r, j.env, j.idx) })
+		})
+	}
+	run(jobsA)
+	var keep []c14Job
+	for _, j := range jobsB {
+		if c14DeadClasses[fcOf(j)] > 0 {
+			r.NoteAdd(c14DP+"aborted-scenarios-not-run(class deadlocks, see observed-only.deadlocked-scenarios)", 1)
+			continue
+		}
+		keep = append(keep, j)
+	}
+	run(keep)
+	r.Note(c14DP+"deadlock-detector.goroutine-dumps", c14DumpN.Load())
+	r.Note(c14DP+"deadlock-detector.dump-ms-total", c14DumpNs.Load()/1e6)
+	r.Note(c14DP+"deadlock-detector.dump-bytes-total", c14DumpBytes.Load())
 }
 
-var c14DenKinds = []string{"honest", "cheaters", "transit", "wrong-statement", "mixed", "honest", "cheaters", "transit", "absent-unverified", "absent-verified"}
+var c14DenKinds = []string{"honest", "cheaters", "transit", "wrong-statement", "mixed", "honest", "cheaters", "transit", "absent-unverified", "absent-verified",
+	"aborted", "aborted", "aborted", "aborted", "aborted"}
+
+// c14AbortFaultFor returns the fault class of scenario idx if it belongs to the aborted-run family.
+func c14AbortFaultFor(env *c14Env, idx int) (c14Fault, bool) {
+	if c14DenKinds[idx%len(c14DenKinds)] != "aborted" {
+		return c14Fault{}, false
+	}
+	menu := c14FaultMenu()
+	nAb := 0
+	for _, kd := range c14DenKinds {
+		if kd == "aborted" {
+			nAb++
+		}
+	}
+	ord := idx/len(c14DenKinds)*nAb + idx%len(c14DenKinds) - (len(c14DenKinds) - nAb) + 13*len(env.name)
+	return menu[ord%len(menu)], true
+}
+
+// classes of injected faults under which some participant was PROVEN deadlocked (all its goroutines blocked)
+var c14DeadMu sync.Mutex
+var c14DeadClasses = map[string]int{}
 
 func c14DenRun(r *mon.R, env *c14Env, idx int) {
 	rng := gen.New(r.Seed, "C14den"+env.name, idx)
@@ -170,6 +284,13 @@ func c14DenRun(r *mon.R, env *c14Env, idx int) {
 	k := 2 + rng.IntN(4)
 	if kind == "absent-unverified" || kind == "absent-verified" {
 		k = 3 + rng.IntN(3)
+	}
+	var fault *c14Fault
+	if f, ok := c14AbortFaultFor(env, idx); ok {
+		fault = &f
+		if strings.HasPrefix(f.variant, "wrong-key-of-") {
+			k = 3 + rng.IntN(3) // two undisturbed participants besides the equivocating one
+		}
 	}
 	key := func(what string) string {
 		if kind == "absent-unverified" || kind == "absent-verified" {
@@ -306,6 +427,13 @@ func c14DenRun(r *mon.R, env *c14Env, idx int) {
 	if absent >= 0 {
 		cl.active[absent] = false
 	}
+	if fault != nil {
+		if fault.who >= 0 {
+			fault.who = rng.IntN(k)
+		}
+		cl.fault = fault
+		cl.rnd = rng.Bytes(40)
+	}
 	if len(transits) > 0 {
 		// called with cl.mu held; touches only the transit records and the round history
 		cl.mut = func(round, to, from int, msg []byte) []byte {
@@ -378,6 +506,9 @@ func c14DenRun(r *mon.R, env *c14Env, idx int) {
 				vrfs[j] = vp.Verifier(suite, c14CopyPoints(g, p.vpts[j]))
 			}
 		}
+		if fault.hits(i) && fault.kind == "prover-error" {
+			prover = c14FailingProver(prover, fault.variant)
+		}
 		mem := &c14Member{c: cl, i: i, seed: gen.New(r.Seed, "C14denrand"+env.name, idx*16+i).Bytes(32), suite: suite}
 		proto := proof.DeniableProver(suite, i, prover, vrfs)
 		wg.Add(1)
@@ -389,17 +520,75 @@ func c14DenRun(r *mon.R, env *c14Env, idx int) {
 					panics[i] = fmt.Sprint(e)
 				}
 			}()
+			id := c14GoID()
+			cl.mu.Lock()
+			cl.goid[i] = id
+			cl.mu.Unlock()
 			results[i] = (func(proof.Context) []error)(proto)(mem)
 		}(i)
 	}
 	done := make(chan struct{})
 	go func() { wg.Wait(); close(done) }()
-	select {
-	case <-done:
-	case <-time.After(5 * time.Minute):
-		// watchdog only: never a verdict
-		r.Inconclusive(fmt.Sprintf("deniable scenario %s/%d (%s, k=%d) did not terminate within the watchdog", env.name, idx, kind, k))
-		return
+	// Wait. The timer only decides WHEN the goroutine states are looked at; a scenario is declared hung only if
+	// every goroutine that could still wake another one of this scenario is blocked (a fact, not a timeout).
+	hung := make([]bool, k)
+	var hungWhere []string
+	delay, waited := 500*time.Millisecond, time.Duration(0)
+	lastProgress := -1
+wait:
+	for {
+		select {
+		case <-done:
+			break wait
+		case <-time.After(delay):
+		}
+		waited += delay
+		if delay < 4*time.Second {
+			delay *= 2
+		}
+		var roots []int
+		var who []int
+		cl.mu.Lock()
+		started := cl.progress == lastProgress // look at the goroutines only if nothing moved since the last look
+		lastProgress = cl.progress
+		for i := range parties {
+			if !parties[i].absent && !cl.finished[i] {
+				if cl.goid[i] == 0 {
+					started = false
+				}
+				roots = append(roots, cl.goid[i])
+				who = append(who, i)
+			}
+		}
+		cl.mu.Unlock()
+		if started && len(roots) > 0 {
+			if dead, where := c14AllBlocked(roots); dead {
+				for _, i := range who {
+					hung[i] = true
+				}
+				hungWhere = where
+				break wait
+			}
+		}
+		if waited > 5*time.Minute {
+			// watchdog only: never a verdict
+			r.Inconclusive(fmt.Sprintf("deniable scenario %s/%d (%s, k=%d) did not terminate within the watchdog", env.name, idx, kind, k))
+			return
+		}
+	}
+	anyHung := false
+	for i := range hung {
+		anyHung = anyHung || hung[i]
+	}
+	if anyHung {
+		// finished participants published their results before cl.leave (mutex): take the lock once before reading them
+		cl.mu.Lock()
+		for i := range hung {
+			if !hung[i] && !cl.finished[i] {
+				hung[i] = true
+			}
+		}
+		cl.mu.Unlock()
 	}
 
 	// judge
@@ -416,6 +605,9 @@ func c14DenRun(r *mon.R, env *c14Env, idx int) {
 		}
 		res := make([][]string, k)
 		for i := range results {
+			if hung[i] {
+				continue
+			}
 			for _, e := range results[i] {
 				if e == nil {
 					res[i] = append(res[i], "nil")
@@ -424,7 +616,8 @@ func c14DenRun(r *mon.R, env *c14Env, idx int) {
 				}
 			}
 		}
-		return map[string]any{"group": env.name, "scenario": idx, "kind": kind, "k": k, "participants": ps, "transit_alterations": ts, "results": res, "panics": panics}
+		return map[string]any{"group": env.name, "scenario": idx, "kind": kind, "k": k, "participants": ps, "transit_alterations": ts, "results": res, "panics": panics,
+			"injected_fault": fault.String(), "participants_deadlocked": hung, "deadlocked_goroutines": hungWhere}
 	}
 	r.NoteAdd(c14DP+"scenarios."+kind, 1)
 	r.NoteAdd(c14DP+fmt.Sprintf("scenarios.k=%d", k), 1)
@@ -436,8 +629,34 @@ func c14DenRun(r *mon.R, env *c14Env, idx int) {
 		}
 		r.SampleClass("den:"+kind, d)
 	}
+	if anyHung {
+		cls := kind
+		if fault != nil {
+			cls += "/" + fault.kind + "/" + c14FaultClass(fault)
+		}
+		r.NoteAdd(c14DP+"observed-only.deadlocked-scenarios."+cls, 1)
+		if fault != nil {
+			c14DeadMu.Lock()
+			c14DeadClasses[env.name+"/"+fault.kind+"/"+c14FaultClass(fault)]++
+			c14DeadMu.Unlock()
+		}
+		d := descr()
+		for _, p := range d["participants"].([]map[string]any) {
+			delete(p, "points")
+			delete(p, "prover_secrets")
+		}
+		r.SampleClass("den-deadlock:"+cls, d)
+		if kind != "aborted" {
+			// outside the fault-injection family every participant is expected to return
+			r.Inconclusive(fmt.Sprintf("deniable scenario %s/%d (%s, k=%d): participants deadlocked: %v", env.name, idx, kind, k, hungWhere))
+		}
+	}
+	if kind == "aborted" {
+		c14JudgeAborted(r, env, g, idx, k, parties, cl, fault, results, panics, hung, descr)
+		return
+	}
 	for i, p := range parties {
-		if p.absent {
+		if p.absent || hung[i] {
 			continue
 		}
 		if panics[i] != "" {
